@@ -2,7 +2,6 @@ package props
 
 import (
 	"fmt"
-	"os"
 	"strings"
 	"testing"
 
@@ -282,13 +281,7 @@ func checkAfterFault(e *Env, before *Model, target *Op, err error, k int, st *St
 }
 
 func init() {
-	base := replayers["C06"]
-	replayers["C06"] = func(t *testing.T, prog *Program) {
-		if prog.Aux["faults"] == true {
-			guardT(t, prog, func() { caseC06Faults(t, prog) })
-			return
-		}
-		base(t, prog)
-	}
-	_ = os.Getenv
+	replayAlts = append(replayAlts, replayAlt{"C06", hasAux("faults"), func(t *testing.T, prog *Program) {
+		guardT(t, prog, func() { caseC06Faults(t, prog) })
+	}})
 }
